@@ -111,6 +111,7 @@ def wallet_history(job):
     events, desc = [], []
     reports = []        # outputs ever reported to the wallet: [txid, n, value, key_id, address]
     stored = []         # txids of stored (sent) transactions
+    sent_objs = {}      # txid -> (the WalletTransaction object that was pushed, its projection)
     unsent = []         # WalletTransaction objects created but not broadcast
     replace = []        # broadcast transactions signalling replace-by-fee, to be replaced
     imports = []        # unsent transactions to be imported again (raw / object / dictionary) and sent
@@ -183,6 +184,8 @@ def wallet_history(job):
             kind_, fee, minconf, broadcast = 'send_to', 2000, 0, True
         inkeys = []
         nchange = rng.choice([1, 1, 0, 2, 3])
+        if force[0] == 'spend_one_bcast':
+            kind_, fee, minconf, broadcast, nchange = 'send_to', 2000, 0, True, 1
         total = sum(u['value'] for u in spendable)
         explicit = []
         tainted = False
@@ -199,7 +202,7 @@ def wallet_history(job):
                     amount = max(1000, total - fee - rng.choice([0, 100, 900, 1500, 30000]))
                 if force[0] == 'send_minconf':
                     amount = rng.choice([160000, 200000, 250000])
-                if force[0] in ('spend_one', 'spend_one_replace'):
+                if force[0] in ('spend_one', 'spend_one_replace', 'spend_one_bcast'):
                     amount = 100000
                 to = rng.choice(EXT + [rng.choice(keys).address]) if keys else EXT[0]
                 if rng.random() < 0.2 and keys:
@@ -234,13 +237,20 @@ def wallet_history(job):
                 if not arr:
                     raise WalletError('driver: nothing to list')
                 long_form = rng.random() < 0.4
+                def spell(txid):
+                    # the ways a transaction id can be written: hexadecimal text in either case, bytes
+                    r = rng.random()
+                    return txid if r < 0.55 else (txid.upper() if r < 0.7 else bytes.fromhex(txid))
                 def spec_in(a):
                     if len(a) == 5:         # the foreign output: with or without its address
                         return (a[0], a[1], a[2], a[3]) if rng.random() < 0.5 else (a[0], a[1], a[2], a[3], None, b'', a[4])
                     if long_form:
                         kid = next((x[3] for x in reports if x[0] == a[0] and x[1] == a[1]), None)
-                        return (a[0], a[1], kid, a[2]) if kid else (a[0], a[1])
-                    return (a[0], a[1])
+                        return (spell(a[0]), a[1], kid, a[2]) if kid else (spell(a[0]), a[1])
+                    if rng.random() < 0.15:
+                        from bitcoinlib.transactions import Input
+                        return Input(prev_txid=a[0], output_n=a[1], network=w.network.name)
+                    return (spell(a[0]), a[1])
                 t = w.send(recips, input_arr=[spec_in(a) for a in arr], fee=fee, broadcast=broadcast, number_of_change_outputs=nchange, **akw)
             elif kind_ == 'send':
                 n = rng.randrange(2, 4)
@@ -275,6 +285,7 @@ def wallet_history(job):
                 ev['stored'] = True
                 ev['tnum'] = txnum(table, t.txid)
                 stored.append(t.txid)
+                sent_objs[t.txid] = (t, ev['x'])
                 spent_outpoints.extend((i.prev_txid.hex(), i.output_n_int, int(i.value)) for i in t.inputs)
                 ev['raw'] = t.raw_hex()
                 if rbf and kind_ in ('send_to', 'send') and (rng.random() < 0.6 if not force[0] else force[0] == 'spend_one_replace'):
@@ -395,6 +406,11 @@ def wallet_history(job):
     elif sc < 0.94 and co is not None:
         # another wallet with the same keys in the same database spends an output
         plan = ['key', 'add', 'add', 'co_spend', 'tx', 'tx']
+    if co is not None and rng.random() < 0.2:
+        plan = ['key', 'add', 'add', 'co_spend', 'tx', 'co_spend', 'tx']
+    if rng.random() < 0.12:
+        # a sent transaction is learnt to be confirmed, pushed once more, and the unconfirmed transactions are pruned
+        plan = ['key', 'add_old', 'add_old', 'spend_one_bcast', 'confirm_own', 'resend', 'prune', 'tx', 'tx']
     if accounts and rng.random() < 0.5:
         # funded keys whose ids alternate between the accounts: account 0, account 1, account 0 again
         plan = ['key_a0', 'add_last', 'key_a1', 'add_last', 'key_a0', 'add_last', 'key_a1', 'add_last']
@@ -415,8 +431,14 @@ def wallet_history(job):
             r = 0.75
         elif forced == 'co_spend':
             r = 0.97
-        elif forced in ('tx', 'spend_most', 'spend_most_unsent', 'send_minconf', 'spend_one', 'spend_one_replace'):
+        elif forced in ('tx', 'spend_most', 'spend_most_unsent', 'send_minconf', 'spend_one', 'spend_one_replace', 'spend_one_bcast'):
             r = 0.5
+        elif forced == 'confirm_own':
+            r = 0.81
+        elif forced == 'resend':
+            r = 0.85
+        elif forced == 'prune':
+            r = 0.88
         force[0] = forced
         try:
             keys = own_keys()
@@ -436,7 +458,8 @@ def wallet_history(job):
                 k = rng.choice(keys)
                 if forced == 'add_last' and last_key[0] is not None:
                     k = next((x for x in keys if x.id == last_key[0].key_id), k)
-                same_acct = [x for x in reports if x[6] == int(k.account_id or 0)]     # a transaction is filed under one account
+                # a transaction is filed under one account; a transaction the wallet made itself has no further outputs to report
+                same_acct = [x for x in reports if x[6] == int(k.account_id or 0) and x[0] not in sent_objs]
                 if same_acct and rng.random() < 0.3:
                     txid, n = rng.choice(same_acct)[0], rng.randrange(0, 3)       # another output of a known transaction
                 else:
@@ -494,6 +517,44 @@ def wallet_history(job):
                 if txid in stored:
                     stored.remove(txid)
                 record({'op': 'delete', 'tnum': txnum(table, txid)}, 'transaction_delete(tx%d)' % txnum(table, txid))
+            elif 0.80 <= r < 0.84 and stored and forced != 'co_spend':
+                # the wallet learns that a transaction it sent is confirmed: an output of it that pays an own key is reported
+                cands = [(txid, i, o) for txid in stored if txid in sent_objs for i, o in enumerate(sent_objs[txid][1]['outs']) if o[1]]
+                if not cands:
+                    continue
+                txid, n, o = rng.choice(cands)
+                kk = w.key(o[1])
+                conf = rng.choice([1, 2, 6])
+                for x in reports:
+                    if x[0] == txid:
+                        conf = x[5] or conf
+                if accounts:
+                    w.utxos_update(account_id=int(kk.account_id), rescan_all=False, utxos=[
+                        {'address': kk.address, 'script': '', 'confirmations': conf, 'output_n': n, 'txid': txid, 'value': o[0]}])
+                else:
+                    w.utxo_add(kk.address, o[0], txid, n, confirmations=conf)
+                if not any(x[0] == txid and x[1] == n for x in reports):
+                    reports.append([txid, n, o[0], o[1], kk.address, conf, int(kk.account_id or 0)])
+                for x in reports:
+                    if x[0] == txid:
+                        x[5] = conf
+                record({'op': 'utxo_add', 'rep': [[txnum(table, txid), n, o[0], o[1], conf]]},
+                       'utxo_add(key %d, %d, tx%d:%d, conf=%d)  [own transaction reported as confirmed]' % (o[1], o[0], txnum(table, txid), n, conf))
+            elif 0.84 <= r < 0.87 and stored and forced != 'co_spend':
+                # the same transaction object is pushed once more
+                cands = [txid for txid in stored if txid in sent_objs and w.transaction(txid) is not None]
+                if not cands:
+                    continue
+                txid = rng.choice(cands)
+                t, x = sent_objs[txid]
+                t.send()
+                record({'op': 'resend', 'tnum': txnum(table, txid), 'x': x}, 'tx%d.send() again (pushed=%s)' % (txnum(table, txid), t.pushed))
+            elif 0.87 <= r < 0.89 and not accounts and forced != 'co_spend':
+                w.transactions_remove_unconfirmed()
+                for txid in list(stored):
+                    if w.transaction(txid) is None:
+                        stored.remove(txid)
+                record({'op': 'remove_unconfirmed'}, 'transactions_remove_unconfirmed()')
             elif forced == 'co_spend' and co is not None and reports:
                 # the co-wallet (same keys, same database) learns of one of the outputs and spends it: broadcast by IT
                 x = rng.choice([y for y in reports if not any(sp[0] == y[0] and sp[1] == y[1] for sp in spent_outpoints)] or reports)
@@ -517,6 +578,24 @@ def wallet_history(job):
                 spent_outpoints.extend((i.prev_txid.hex(), i.output_n_int, int(i.value)) for i in t.inputs)
                 record({'op': 'co_spend', 'ins': ins},
                        'the co-wallet broadcasts a transaction spending %s (pushed=%s)' % (['tx%d:%d' % tuple(i) for i in ins], t.pushed))
+                follow = rng.random()
+                if follow < 0.6:
+                    # this wallet files the co-wallet's transaction too ...
+                    try:
+                        rt = w.transaction_import(t)
+                        rt.send()
+                    except WalletError:
+                        rt = None           # (the co-wallet spent an output this wallet does not know: refused)
+                    if rt is not None and rt.pushed:
+                        stored.append(rt.txid)
+                        x = txresult(rt, [(EXT[0], 0)])
+                        sent_objs[rt.txid] = (rt, x)
+                        record({'op': 'adopt', 'tnum': txnum(table, rt.txid), 'x': x},
+                               'transaction_import + send of the co-wallet\'s transaction tx%d' % txnum(table, rt.txid))
+                if follow < 0.45 or follow > 0.85:
+                    # ... and the co-wallet deletes its copy
+                    co.transaction_delete(t.txid)
+                    record({'op': 'co_delete'}, 'the co-wallet deletes its copy of tx%d' % txnum(table, t.txid))
             elif r < 0.93:
                 try:
                     w.session.close()
